@@ -328,7 +328,26 @@ func Go(f func()) {
 	g.threads[id] = thread{state: 1, op: opStart}
 	g.nthreads++
 	g.all.Add(1)
-	go threadMain(id, f)
+	// Threads run on pooled goroutines that persist across executions (creating a goroutine is
+	// expensive under the race detector).  Within one execution every thread has its own goroutine,
+	// and the channel send below is the only edge the pool adds: spawner -> child, exactly the
+	// happens-before edge of the go statement it replaces.
+	if pool[id] == nil {
+		pool[id] = make(chan func(), 1)
+		go worker(id, pool[id])
+	}
+	pool[id] <- f
+	// second scheduling point, now that the child exists: it may run before the parent's next step
+	point(opYield, nil)
+}
+
+var pool [MaxThreads]chan func()
+
+//go:norace
+func worker(id int32, in chan func()) {
+	for f := range in {
+		threadMain(id, f)
+	}
 }
 
 //go:norace
